@@ -89,7 +89,7 @@ PROPS = {
     "C04": {
         "props": "TrackVerif.GP.PropsC04",
         "streams": [("GP", 5000, 40000)],
-        "clauses": ["gp.name_shape", "gp.validate", "gp.grouping", "gp.input_slot", "gp.process", "gp.no_crash"],
+        "clauses": ["gp.name_shape", "gp.validate", "gp.grouping", "gp.input_slot", "gp.process", "gp.osfs", "gp.no_crash"],
         "rule": "PRNG(seed): 10% direct Match calls (documented names, near misses with one character replaced, mixed case, non-ASCII look-alikes), 10% FileSlice.Validate on "
                 "chapter lists with gaps/duplicates/odd starts, 10% argument lists, 70% whole Process runs on listings drawn from a name universe mixing both conventions, gaps, "
                 "GH/GX duplicates, look-alikes and directories (a sub-directory answers ReadDir with a valid name and records the access); the visiting order of the groups is read "
